@@ -7,32 +7,32 @@ CHECKS = {
  'C01': dict(
    text='seeded search over node layouts, task streams (incl. fractional GPUs, lfs/mem, tags, priorities, application-supplied slots), completions and cancels in the agent world: real scheduler parent + forked child (+ real executor/stagers in full-agent runs); step invariant = resource ledger over the grant/release history (core_shared, gpu_over, lfs_over, mem_over, down_used, agent_node_used). Sampling, not proof.',
    ref='4 (C01)',
-   note='trusted: simulator fakes (transport, fork = deep copy with shared IPC objects, task processes with seeded runtime/exit code); client side and agent_0 are played by the driver; Continuous scheduler only (ContinuousJsrun not driven yet)',
+   note='trusted: simulator fakes (transport, fork = deep copy with shared IPC objects, task processes with seeded runtime/exit code); client side and agent_0 are played by the driver; Continuous and (scheduler focus, JSRUN launch method configured) ContinuousJsrun schedulers',
    technique='deterministic simulation: seeded workloads + schedule search, resource-ledger step invariant'),
  'C02': dict(
    text='every grant of the C01 worlds is compared with the task description as submitted (rank count, node exists, exact distinct cores, GPU amount, lfs/mem, ranks_per_node, colocate history) and oversize requests must be rejected. Sampling, not proof.',
    ref='4 (C02)',
-   note='trusted: simulator fakes (transport, fork = deep copy with shared IPC objects, task processes with seeded runtime/exit code); client side and agent_0 are played by the driver; Continuous scheduler only (ContinuousJsrun not driven yet)',
+   note='trusted: simulator fakes (transport, fork = deep copy with shared IPC objects, task processes with seeded runtime/exit code); client side and agent_0 are played by the driver; Continuous and (scheduler focus, JSRUN launch method configured) ContinuousJsrun schedulers',
    technique='deterministic simulation: seeded workloads + schedule search, per-grant shape oracle'),
  'C03': dict(
    text='full agent with every way a task can end (exit 0/non-0, cancel before/after spawn/at exit, timeout, spawn error, exit racing the kill) and line-level pre-emption in the executor; history oracle: releases per granted uid == 1, scheduler node map back to initial capacity once nothing is held. Sampling, not proof.',
    ref='4 (C03)',
-   note='trusted: simulator fakes (transport, fork = deep copy with shared IPC objects, task processes with seeded runtime/exit code); client side and agent_0 are played by the driver; Continuous scheduler only (ContinuousJsrun not driven yet)',
+   note='trusted: simulator fakes (transport, fork = deep copy with shared IPC objects, task processes with seeded runtime/exit code); client side and agent_0 are played by the driver; Continuous and (scheduler focus, JSRUN launch method configured) ContinuousJsrun schedulers',
    technique='deterministic simulation with fault injection: exactly-once release + capacity conservation at quiescence'),
  'C04': dict(
    text='scheduler focus (real parent + forked child, stub executor): cancels and env registrations land anywhere in the loop; safety: at most one report per uid, exactly one place at quiescence; bounded liveness at quiescence in unambiguous situations only (alone task fits idle pilot, unfit task failed, idle pilot starts one, fit task never failed). Sampling, not proof.',
    ref='4 (C04)',
-   note='trusted: simulator fakes (transport, fork = deep copy with shared IPC objects, task processes with seeded runtime/exit code); client side and agent_0 are played by the driver; Continuous scheduler only (ContinuousJsrun not driven yet)',
+   note='trusted: simulator fakes (transport, fork = deep copy with shared IPC objects, task processes with seeded runtime/exit code); client side and agent_0 are played by the driver; Continuous and (scheduler focus, JSRUN launch method configured) ContinuousJsrun schedulers',
    technique='deterministic simulation: exactly-one-bucket safety + bounded liveness after faults stop'),
  'C07': dict(
    text='executor focus and full agent with real Popen (work loop, watcher, timeout watcher, control listener): cancel at any instant (event-triggered into the narrow windows), exit at any instant incl. between poll and killpg, timeouts on the virtual clock, spawn errors, line-level pre-emption; oracle per accepted uid: announced once, handed on once (staging-out with outcome, or FAILED), released once, never both cancelled and collected, never left behind. Sampling, not proof.',
    ref='4 (C07)',
-   note='trusted: simulator fakes (transport, fork = deep copy with shared IPC objects, task processes with seeded runtime/exit code); client side and agent_0 are played by the driver; Continuous scheduler only (ContinuousJsrun not driven yet)',
+   note='trusted: simulator fakes (transport, fork = deep copy with shared IPC objects, task processes with seeded runtime/exit code); client side and agent_0 are played by the driver; Continuous and (scheduler focus, JSRUN launch method configured) ContinuousJsrun schedulers',
    technique='deterministic simulation with fault injection: exactly-once oracle under thread interleaving'),
  'C08': dict(
    text='full agent / scheduler focus with cancel requests naming seeded subsets at seeded and event-triggered instants; oracle: bystanders reach the outcome fixed by the workload and are never cancelled/lost, named tasks leave the wait pool, a named task whose process was alive when the request reached the executor does not run to its natural end, resources via C03 ledger. Sampling, not proof.',
    ref='4 (C08)',
-   note='trusted: simulator fakes (transport, fork = deep copy with shared IPC objects, task processes with seeded runtime/exit code); client side and agent_0 are played by the driver; Continuous scheduler only (ContinuousJsrun not driven yet)',
+   note='trusted: simulator fakes (transport, fork = deep copy with shared IPC objects, task processes with seeded runtime/exit code); client side and agent_0 are played by the driver; Continuous and (scheduler focus, JSRUN launch method configured) ContinuousJsrun schedulers',
    technique='deterministic simulation: cancel-placement sweep, bystander/named outcome oracle'),
  'C06': dict(
    text='seeded search over notification histories (dup, reorder, skipped, stale, contradictory finals, unknown uids, mixed batches, concurrent submits and callback registration) delivered to the real TaskManager/Task under a simulated transport and scheduler; oracle = refinement against a reference model of the linear state machine, checked at every callback and at quiescence. Sampling, not proof.',
